@@ -767,3 +767,39 @@ def find_culprit(exe, lines, timeout=5, mem_mb=2048):
             return bad, st1, e1[-300:]
         lo = bad + 1
     return None
+
+
+def run_staged(argv, parts, pause=1.0, timeout=60, mem_mb=2048, env=None):
+    """Run a tool whose stdin arrives in several parts with a pause between them (a slow
+    producer): the tool's threads then catch up with each other at the part boundaries.
+    stdout/stderr go to temporary files so nothing can block.  Returns (status, stdout, stderr)."""
+    import signal
+    import tempfile
+    with tempfile.TemporaryFile() as fo, tempfile.TemporaryFile() as fe:
+        p = subprocess.Popen(argv, stdin=subprocess.PIPE, stdout=fo, stderr=fe, env=env, preexec_fn=_limits(mem_mb))
+        status = None
+        t_end = time.time() + timeout
+        try:
+            try:
+                for i, part in enumerate(parts):
+                    if i:
+                        time.sleep(pause)
+                    p.stdin.write(part)
+                    p.stdin.flush()
+                p.stdin.close()
+            except (BrokenPipeError, OSError):
+                pass                      # the tool died: its status tells
+            try:
+                status = p.wait(timeout=max(1, t_end - time.time()))
+            except subprocess.TimeoutExpired:
+                status = "timeout"
+        finally:
+            try:
+                os.killpg(p.pid, signal.SIGKILL)
+            except Exception:
+                pass
+            if status == "timeout":
+                p.wait()
+        fo.seek(0)
+        fe.seek(0)
+        return status, fo.read(), fe.read()
